@@ -55,6 +55,8 @@ struct World {
     atomics: Vec<AtomicState>,
     unmapped: Vec<bool>,
     raw_maps: Vec<(usize, usize)>,
+    /// scratch file for descriptor transfers
+    scratch: std::fs::File,
 }
 
 impl World {
@@ -136,6 +138,23 @@ impl World {
                     for a in [r.start, r.start + r.size as u64 - 1] {
                         let b: u8 = m.read_obj(GuestAddress(a)).map_err(|e| format!("owner {}: region {} no longer readable at {:#x}: {:?}", oi, rid, a, e))?;
                         ensure!(b == r.tag, "owner {}: region {} reads {:#04x} at {:#x}, tag is {:#04x}", oi, rid, b, a, r.tag);
+                    }
+                    {
+                        // stream the first bytes out to a descriptor and a few bytes in from one:
+                        // the kernel reads / writes the region's memory during the system call
+                        use std::os::unix::fs::FileExt;
+                        let n = r.size.min(8);
+                        use std::os::fd::AsFd;
+                        let mut f = &self.scratch;
+                        let mut bf = self.scratch.as_fd();
+                        f.set_len(0).map_err(|e| e.to_string())?;
+                        std::io::Seek::rewind(&mut f).map_err(|e| e.to_string())?;
+                        m.write_all_volatile_to(GuestAddress(r.start), &mut bf, n).map_err(|e| format!("owner {}: region {} could not be streamed to a file: {:?}", oi, rid, e))?;
+                        let mut got = vec![0u8; n];
+                        self.scratch.read_exact_at(&mut got, 0).map_err(|e| e.to_string())?;
+                        ensure!(got.iter().all(|b| *b == r.tag), "owner {}: region {} streamed {:x?} to a file, tag is {:#04x}", oi, rid, got, r.tag);
+                        std::io::Seek::rewind(&mut f).map_err(|e| e.to_string())?;
+                        m.read_exact_volatile_from(GuestAddress(r.start), &mut bf, n).map_err(|e| format!("owner {}: region {} could not be filled from a file: {:?}", oi, rid, e))?;
                     }
                     if r.size >= 4 {
                         let v: u32 = m.load(GuestAddress(r.start), std::sync::atomic::Ordering::Relaxed).map_err(|e| format!("owner {}: region {} atomic load: {:?}", oi, rid, e))?;
@@ -302,7 +321,7 @@ fn run(t: &mut Tape, cx: &mut Cx) -> Result<(), String> {
     ensure!(interpose::installed(), "harness: mmap interposer not installed");
     #[cfg(feature = "xen")]
     crate::xen_emul::reset();
-    let mut w = World { regions: vec![], owners: vec![], atomics: vec![], unmapped: vec![], raw_maps: vec![] };
+    let mut w = World { regions: vec![], owners: vec![], atomics: vec![], unmapped: vec![], raw_maps: vec![], scratch: memfd(0) };
     let nsteps = 2 + t.idx(24);
     let mut last_owner_not_creator = false;
     for step in 0..nsteps {
@@ -551,7 +570,7 @@ pub fn property() -> Property {
     subchecks.extend(crate::progs::subchecks());
     Property {
         id: "C12",
-        rule: "run-time half: a case = a history of 2..25 steps over owned anonymous, owned file-backed (with and without the hugetlbfs hint, zero and non-zero file offsets) and externally provided raw regions: create, build a map from handles, insert_region, remove_region (handle kept or dropped), clone a map, move a map into a GuestMemoryAtomic, take guards / owned snapshots / clone handles, replace, and drop any owner in any order; oracle = interposed mmap/munmap log against an owner-count model after every step (a region is unmapped exactly when its last owner disappears, once, with exactly its address and size; raw mappings never), tag bytes read through every live owner (first/last byte, an atomic u32 load) inside the observed window, /proc/self/maps; xen build: also foreign, advance-mapped and on-demand grant regions over emulated devices (temporary windows of an access must be released within the step, memory mapped at creation must survive every access, the device must see every window released), and a final drop of everything in a generated order with a leak check. Compile-time half: every program of a grammar (parent x accessor x escape pattern) with its control twin is compiled against the current crate: the control must compile, the escaping variant must be rejected with a borrow-check error. non-trivial = region with several owners, last owner not the creator, raw region, replace, hugetlbfs hint; every program pair; distinct = decoded history / (parent, accessor, pattern)",
+        rule: "run-time half: a case = a history of 2..25 steps over owned anonymous, owned file-backed (with and without the hugetlbfs hint, zero and non-zero file offsets) and externally provided raw regions: create, build a map from handles, insert_region, remove_region (handle kept or dropped), clone a map, move a map into a GuestMemoryAtomic, take guards / owned snapshots / clone handles, replace, and drop any owner in any order; oracle = interposed mmap/munmap log against an owner-count model after every step (a region is unmapped exactly when its last owner disappears, once, with exactly its address and size; raw mappings never), tag bytes read through every live owner (first/last byte, an atomic u32 load, a descriptor transfer out and back in) inside the observed window, /proc/self/maps; xen build: also foreign, advance-mapped and on-demand grant regions over emulated devices (temporary windows of an access must be released within the step, memory mapped at creation must survive every access, the device must see every window released), and a final drop of everything in a generated order with a leak check. Compile-time half: every program of a grammar (parent x accessor x escape pattern) with its control twin is compiled against the current crate: the control must compile, the escaping variant must be rejected with a borrow-check error. non-trivial = region with several owners, last owner not the creator, raw region, replace, hugetlbfs hint; every program pair; distinct = decoded history / (parent, accessor, pattern)",
         assumptions: &["pointer guards hand out raw pointers and are exempt (documented)", "'for all client programs' is sampled by a grammar of escape patterns"],
         subchecks,
     }
